@@ -402,8 +402,13 @@ class AutoSerialize:
         elif isinstance(value, (int, float, str, bool, type(None))):
             # Scalars saved as attributes
             group.attrs[name] = value
-        elif hasattr(value, "dtype") and hasattr(value, "item"):
-            # Handle numpy scalar types (np.float32, np.int64, etc.)
+        elif (
+            hasattr(value, "dtype")
+            and hasattr(value, "item")
+            and not isinstance(value, np.complexfloating)
+        ):
+            # Handle numpy scalar types (np.float32, np.int64, etc.); complex scalars have no
+            # JSON form and take the dill fallback below, like Python complex numbers
             group.attrs[name] = value.item()
         elif hasattr(value, "__fspath__") or str(type(value)).startswith("<class 'pathlib."):
             # Handle pathlib.Path objects and other path-like objects
